@@ -67,6 +67,20 @@ CLAIMED = {
         note='Trusted: as C01. In stdin mode -d creates and removes its spool below TMPDIR (checked on the real binary; the theorem is stated for '
              'maildir mode). command conditions may run under -d (they are conditions, not exec actions).',
         technique='Lean 4 proof (no mutating call on the dry-run path, for all fault plans) + snapshot/trace checks on the real binary'),
+    'C06': dict(
+        text='Machine-checked: the plan does not depend on -d (C06_same_plan: for every environment, message, rule tree and state the '
+             'evaluation under -d returns the same result, the same action entries up to display fields and the same flag state), the '
+             '"-> destination" lines are exactly, in order, the action entries matches_exec iterates over (C06_lines_are_actions), and the '
+             'marker line has ^ under the first and $ under the last matched character for every additive width function whenever the match '
+             'does not start inside the leading blanks of its line (C06_marker_columns; the complement is known finding F15). Tied to the '
+             'code: 1200 generated rule trees x messages run through the real parser/evaluator/matches_inspect with the output compared byte '
+             'for byte with the model and each marker judged against the offsets the implementation recorded; 49 configurations run with -d '
+             'and then for real on the real binary (listed = acted on, same destinations).',
+        note='Trusted: as C03 plus the shim/process harness. Display width is the C-locale width (UTF-8 locales not exercised). Known '
+             'findings F15, F15b (marker when the match starts in leading blanks / at a newline) and F21 (walk revisits a message it moved '
+             'into a directory it has yet to read) are reported as KNOWN-FINDING lines.',
+        technique='Lean 4 proof (dry-run independence of the evaluator, inspect output = action list, marker columns) + differential '
+                  'execution of matches_inspect + dry-run/real-run comparison on the binary'),
     'C08': dict(
         text='Machine-checked: for EVERY well-formed message (Spec.read: no NUL, header block of fields, one empty line, body not starting '
              'with a newline - the domain the property names) and every sequence of header settings (SetOk: no newline/NUL in the value, no '
@@ -190,7 +204,6 @@ CLAIMED.update({
 })
 
 NOT_YET = {
-    'C06': 'check under construction',
     'C07': 'check under construction',
     'C14': 'check under construction',
 }
